@@ -1,3 +1,119 @@
 import Ptk.Proto
--- stub: the C16 model driver has not been written yet
-def main : IO Unit := Ptk.Proto.run fun _ => "bad-op"
+import Ptk.Model.C16
+open Ptk Ptk.Py Ptk.Proto Ptk.C16
+
+/-- parse `n s₁ … sₙ rest…` -/
+def takeStrs : Nat → List String → Option (List Text × List String)
+  | 0, rest => some ([], rest)
+  | n + 1, t :: rest => do
+    let s ← decStr t
+    let (ss, r) ← takeStrs n rest
+    pure (s :: ss, r)
+  | _ + 1, [] => none
+
+def decDir (t : String) : Option Dir :=
+  if t == "F" then some .fwd else if t == "B" then some .bwd else none
+def encDir : Dir → String
+  | .fwd => "F"
+  | .bwd => "B"
+
+def pickEq (ic : Bool) : Char → Char → Bool := if ic then eqCI else eqCS
+
+def encPos : Option (Nat × Nat) → String
+  | none => "N"
+  | some (i, c) => s!"{i},{c}"
+
+/-- `api n lines… widx cur sub dir incl ic count` : every Buffer-level entry point at once -/
+def apiLine (toks : List String) : Option String := do
+  match toks with
+  | nTok :: rest =>
+    let n ← decNat nTok
+    let (ls, rest) ← takeStrs n rest
+    match rest with
+    | [w, c, sub, d, incl, ic, cnt] =>
+      let w ← decNat w
+      let c ← decNat c
+      let sub ← decStr sub
+      let d ← decDir d
+      let incl ← decBool incl
+      let ic ← decBool ic
+      let cnt ← decNat cnt
+      let eq := pickEq ic
+      let b : Buf := { lines := ls, widx := w, cur := c }
+      let r := search eq b sub d incl cnt
+      let a := applySearch eq b sub d incl cnt
+      let (dt, dc) := docForSearch eq b sub d
+      let g := getSearchPosition eq b sub d incl cnt
+      pure s!"search={encPos r} apply={a.widx},{a.cur} dfs={encStr dt},{dc} gsp={g}"
+    | _ => none
+  | _ => none
+
+/-- `find text cur sub incl ic` / `findb text cur sub ic` -/
+def findLine : List String → Option String
+  | ["find", t, c, sub, incl, ic] => do
+    let r := docFind (pickEq (← decBool ic)) (← decStr t) (← decNat c) (← decStr sub) (← decBool incl)
+    pure (encOptInt (r.map Int.ofNat))
+  | ["findb", t, c, sub, ic] => do
+    pure (encOptInt (docFindBack (pickEq (← decBool ic)) (← decStr t) (← decNat c) (← decStr sub)))
+  | _ => none
+
+structure DSt where
+  vi : Bool
+  ic : Bool
+  s : Sess
+
+def showSess (d : DSt) : String :=
+  let s := d.s
+  let (pt, pc) := preview (pickEq d.ic) s
+  s!"{encList encStr s.buf.lines} {s.buf.widx} {s.buf.cur} | {encStr s.field} {encStr s.stext} {encDir s.sdir} {encBool s.searching} | {encStr pt} {pc}"
+
+def parseKey : List String → Option Key
+  | ["start", d] => do pure (.start (← decDir d))
+  | ["type", c] => do
+    match ← decStr c with
+    | [ch] => pure (.type ch)
+    | _ => none
+  | ["bs"] => some .backspace
+  | ["incr", d] => do pure (.incr (← decDir d))
+  | ["accept"] => some .accept
+  | ["abort"] => some .abort
+  | ["next", n] => do pure (.next (← decNat n))
+  | ["prev", n] => do pure (.prev (← decNat n))
+  | _ => none
+
+def initLine (toks : List String) : Option DSt := do
+  match toks with
+  | vi :: ic :: nTok :: rest =>
+    let vi ← decBool vi
+    let ic ← decBool ic
+    let n ← decNat nTok
+    let (ls, rest) ← takeStrs n rest
+    match rest with
+    | [w, c] =>
+      pure { vi := vi, ic := ic,
+             s := { buf := { lines := ls, widx := ← decNat w, cur := ← decNat c },
+                    field := [], stext := [], sdir := .fwd, searching := false } }
+    | _ => none
+  | _ => none
+
+def stepLine (d : DSt) (toks : List String) : DSt × String :=
+  match toks with
+  | "api" :: rest => (d, (apiLine rest).getD "bad-op")
+  | "find" :: _ => (d, (findLine toks).getD "bad-op")
+  | "findb" :: _ => (d, (findLine toks).getD "bad-op")
+  | "init" :: rest =>
+    match initLine rest with
+    | some d' => (d', showSess d')
+    | none => (d, "bad-op")
+  | "key" :: rest =>
+    match parseKey rest with
+    | some k =>
+      let d' := { d with s := step (pickEq d.ic) d.vi d.s k }
+      (d', showSess d')
+    | none => (d, "bad-op")
+  | _ => (d, "bad-op")
+
+def main : IO Unit :=
+  runS stepLine { vi := false, ic := false,
+                  s := { buf := { lines := [[]], widx := 0, cur := 0 }, field := [], stext := [],
+                         sdir := .fwd, searching := false } }
